@@ -14,6 +14,42 @@ HOSTILE_NAMES = ['my root', 'a-b', 'x.y'[:1] + '_y', '1st', '_under', 'features'
                  'AND', 'xor', 'IMPLIES1', 'e', 'E1', 'Real', 'cardinality', 'constraints', 'alternative']
 
 
+# plain identifiers that embed operator words, and identifiers that differ only in letter case
+WORDY_NAMES = ['ANDROID', 'SENSOR', 'NOTE', 'XORG', 'MONITOR', 'ORDER', 'NOTHING', 'BRAND', 'wan', 'WAN', 'Lan', 'LAN', 'lan', 'EXCLUDESa',
+               'bREQUIRES', 'IMPLIESx', 'HANDLE', 'Wan']
+
+
+def with_wordy_names(desc, rng):
+    """rename (most) features to WORDY_NAMES and, where a constraint has a twin under case-swapped names, add the twin"""
+    names = [f['name'] for f, _, _ in d_features(desc)]
+    pool = list(WORDY_NAMES)
+    rng.shuffle(pool)
+    # keep case twins together so that twins exist
+    if rng.random() < 0.4:
+        pool.sort(key=lambda n: (n.lower() not in ('wan', 'lan'), 0))
+    else:
+        pool.sort(key=lambda n: (n.lower() in ('wan', 'lan'), 0))
+    mapping = {n: pool[k] for k, n in enumerate(names) if k < len(pool) and (k < 5 or rng.random() < 0.6)}
+    d = rename(desc, mapping)
+    new_names = {f['name'] for f, _, _ in d_features(d)}
+    by_lower = {}
+    for n in new_names:
+        by_lower.setdefault(n.lower(), []).append(n)
+
+    def twin(a):
+        if isinstance(a, str):
+            alts = [x for x in by_lower.get(a.lower(), []) if x != a]
+            return alts[0] if alts else a
+        return [a[0]] + [twin(x) for x in a[1:]]
+    extra = []
+    for c in d.get('ctcs', []):
+        t = twin(c['ast'])
+        if t != c['ast']:
+            extra.append({'name': c['name'] + 't', 'ast': t})
+    d['ctcs'] = list(d.get('ctcs', [])) + extra
+    return d
+
+
 def rename(desc, mapping):
     d = copy.deepcopy(desc)
 
